@@ -1,6 +1,9 @@
 package checks
 
 import (
+	"math/rand"
+
+	"github.com/Fantom-foundation/lachesis-base/inter/idx"
 	"verif/cons"
 	"verif/ev"
 )
@@ -10,12 +13,33 @@ func init() { register("C03", "exploration", runC03) }
 
 func runC03(c *ev.Ctx) {
 	c.Rule = "generator as C01 but with ANY subset of validators forking (also >= 1/3 of the weight: such runs are kept up to the point where the implementation reports a Byzantine condition or the reference leaves its assumptions; blocks emitted before are still checked). " +
-		"Oracle per block: Cheaters == [v in canonical order (weight desc, id asc) | two different events of v with equal seq are ancestors-or-self of the Atropos], computed from the reference's graph closure. " +
+		"Every tenth DAG has 6 heavy honest validators and 14-18 light forkers (weights 1..3 with ties, ids not in weight order). Oracle per block: Cheaters == [v in canonical order (weight desc, id asc) | two different events of v with equal seq are ancestors-or-self of the Atropos], computed from the reference's graph closure. " +
 		"non-trivial = distinct DAG fingerprint having a block with a non-empty expected list, or a block whose expected list is empty although forks already exist in the epoch (fork not visible to the Atropos)"
 	c.Assumptions = []string{"reference forkSeen = scan of the Atropos' ancestor closure for equal (creator, seq) with different IDs"}
 	o := &campOpts{nDAGs: c.Pick(700, 8000), orders: c.Pick(3, 5), maxN: c.Pick(10, 16), minEvents: 60, maxEvents: c.Pick(350, 700), maxEpochs: 3,
 		cheat: cons.CheatAny, critOnlyBelowThird: true,
 		mine: map[string]bool{cons.DCheaters: true},
+		tweak: func(r *rand.Rand, i int, cfg *cons.GenCfg) *cons.GenCfg {
+			if i%10 != 7 {
+				return nil
+			}
+			// many cheaters at once: 6 heavy honest validators and 14-18 light ones (weights 1..3, ties included, together
+			// below a third) that all fork early and often, so that blocks list thirteen and more cheaters
+			nl := 14 + r.Intn(5)
+			p := &cons.EpochPlan{Epoch: cfg.Plans[0].Epoch, Cheaters: map[int]bool{}}
+			for k := 0; k < 6+nl; k++ {
+				p.IDs = append(p.IDs, idx.ValidatorID(1000-37*k+r.Intn(30))) // ids not in weight order
+				if k < 6 {
+					p.Weights = append(p.Weights, uint64(24+r.Intn(3)))
+				} else {
+					p.Weights = append(p.Weights, uint64(1+r.Intn(3)))
+					p.Cheaters[k] = true
+				}
+				p.Lag = append(p.Lag, 0)
+			}
+			c.Count("dags_with_fourteen_or_more_cheaters", 1)
+			return &cons.GenCfg{Plans: []*cons.EpochPlan{p}, EventsPer: 500, MinParents: 2, MaxParents: 7, ForkProb: 0.45}
+		},
 		nontrivial: func(d *cons.DAG, ts []*cons.Trace) bool {
 			for _, t := range ts {
 				if t.CheatBlk > 0 || t.HiddenFork > 0 {
